@@ -150,7 +150,7 @@ PROPS = {
                          "the reported statistic is 0 on the fall-back exit even when the scan loop detected errors - bounded B2 observes the returned value"],
                 claim="Mixed: the detection clause (scan loop) and the soundness of every repair fragment (path_matching) are deductive; recovery is bounded (every single "
                       "edit per walk, seeded separated edit sets).",
-                note="Trusted: numpy where / list-comprehension-over-indices contracts as C06; the three bookkeeping lists of the scan loop are opaque.",
+                note="Trusted: numpy where / list-comprehension-over-indices contracts as C06; the three bookkeeping lists of the scan loop are length-only lists (their elements are not tracked).",
                 technique="scan-loop invariant (detected <=> not a walk) + element invariant on path_matching's result + bounded run-time contract checking (every single edit per walk)"),
     "C09": dict(title="Repair leaves clean strands alone; candidates check-consistent", level="proof", bounded=["C09"], design="8/C09",
                 proof=["dsw.spiderweb.repair_dna#clean", "dsw.spiderweb.repair_dna#clean-vt", "dsw.spiderweb.repair_dna#candidates",
@@ -176,17 +176,19 @@ PROPS = {
                 proof=["dsw.spiderweb.repair_dna#scan", "dsw.operation.dna_to_number#int", "lemma.pv_bound", "lemma.ipow_mono"],
                 explanation="PROVED (partial contract on the real repair_dna, ending with its scan loop): for every A/C/G/T strand at least one window long, "
                             "every coding graph and start vertex, the scan loop TERMINATES - the variant len(strand) - location decreases on every "
-                            "feasible path through the body, including the path 'nucleotide is not an arc and the current segment is empty' (a test "
-                            "on the opaque segment list is treated as non-deterministic) - and its modelled operations raise nothing (strand index, "
-                            "accessor row and column, index_queue store, the precondition of dna_to_number; the resynchronisation vertex is < 4^k).  "
-                            "The three bookkeeping lists (lists of strings / arrays) are declared opaque: statements that only update them are skipped.  "
-                            "BOUNDED (never counted as proved): everything after the scan loop (candidate generation, product, the shape of the result), "
-                            "exceptions of the skipped statements, the polynomial look-up bound.",
-                demoted=["loops 2..7 and result shape - bounded B2 (all ACGT strings of length k..6/8 on two graphs + seeded strands)",
-                         "exception freedom of statements updating the opaque lists - bounded B2"],
-                claim="Mixed: termination of the scan loop deductive (this is the obligation the pinned tree failed, D2); the rest bounded.",
+                            "feasible path through the body, including the path 'first nucleotide is not an arc of the start vertex' (D2) - and NO statement "
+                            "of the loop raises: strand index, accessor row and column, index_queue store, the precondition of dna_to_number (the "
+                            "resynchronisation vertex is < 4^k, also when the look-ahead slice is short or empty at the end of the strand), and the "
+                            "bookkeeping statements - the three lists of strings / arrays are length-only lists (`list_counted`): `split_sequences[-1]` is "
+                            "an IndexError obligation discharged by the invariant, the appended expressions are evaluated with their own obligations.  "
+                            "Postcondition of the loop (what the later phases index by): one chunk and one look-back marker per detected error and one "
+                            "more segment than errors.  "
+                            "BOUNDED (never counted as proved): everything after the scan loop (look-back / path matching, candidate product, the shape "
+                            "of the result), the polynomial look-up bound.",
+                demoted=["loops 2..7 and result shape - bounded B2 (all ACGT strings of length k..6/8 on two graphs + seeded strands)"],
+                claim="Mixed: termination and exception freedom of the whole scan loop deductive (termination is the obligation the pinned tree failed, D2); the phases after it bounded.",
                 note="Trusted: numpy ones/where/indexing contracts.",
-                technique="loop variant of the scan loop (progress on every path) + bounded exhaustive short strands"),
+                technique="loop variant and exception-freedom obligations of the scan loop (length-only bookkeeping lists) + bounded exhaustive short strands"),
     "C11": dict(title="Vertex discovery and the valid graph mirror the filter", level="proof", bounded=["C11"], design="8/C11",
                 proof=["dsw.spiderweb.find_vertices", "dsw.spiderweb.connect_valid_graph#mask", "dsw.spiderweb.connect_valid_graph#none",
                        "dsw.operation.number_to_dna#int", "dsw.graphized.obtain_latters",
